@@ -19,12 +19,12 @@ PROPS = {
                 "boundary and random contents, both orders; thorough adds the exhaustive u8/u16 sweeps. distinct = distinct "
                 "request line; non-trivial = the read succeeds or fails with a payload-carrying error",
     },
-    "C02": {"errkinds": False, "streams": [S("parse", 3000, 20000), S("acc", 1, 1)], "projection": "full"},
+    "C02": {"errkinds": False, "streams": [S("parse", 3000, 20000), S("acc", 1, 1), S("table", 600, 4000)], "projection": "full"},
     "C09": {"errkinds": False, "streams": [S("table", 2000, 8000), S("streamcache", 2, 6)], "projection": "full"},
     "C15": {"streams": [S("strtab", 2000, 20000), S("utf8", 500, 5000)], "projection": "full"},
-    "C10": {"errkinds": ["BadMagic", "UnsupportedElfClass", "UnsupportedVersion", "UnsupportedElfEndianness"], "streams": [S("ident", 800, 4000), S("identstream", 1, 2)], "projection": "full"},
+    "C10": {"errkinds": ["BadMagic", "UnsupportedElfClass", "UnsupportedVersion", "UnsupportedElfEndianness"], "streams": [S("ident", 800, 4000), S("identstream", 1, 2), S("file", 60, 400)], "projection": "full"},
     "C03": {"errkinds": False, "streams": [S("file", 150, 1500), S("sweep", 1, 3)], "projection": "parts:open=,S,P,T="},
-    "C05": {"errkinds": False, "streams": [S("file", 150, 1500), S("sweep", 1, 3), S("bigfile", 1, 1), S("stream", 40, 300), S("streamhdr", 1, 2), S("bigstream", 1, 1)],
+    "C05": {"errkinds": False, "streams": [S("file", 150, 1500), S("sweep", 1, 3), S("bigfile", 1, 1), S("stream", 40, 300), S("streamhdr", 1, 2), S("bigstream", 1, 1), S("streamcache", 2, 6)],
             "projection": "parts:open=,T=,Y=,D=,d=,V=,S0=", "also_tags": []},
     "C18": {"errkinds": False, "streams": [S("prefix", 40, 400), S("sprefix", 25, 200)], "projection": "full"},
     "C20": {"errkinds": False, "streams": [S("file", 150, 1500), S("sweep", 1, 3), S("streamcache", 2, 6)], "projection": "parts:open=,C=,Y=,D=,d=,N=,H=,S,P"},
